@@ -280,7 +280,66 @@ def t_externs(k):
     return {"prec": "f32", "cfg": False, "callees": [aux], "main": main}
 
 
-TEMPLATES = [t_window_on_alloc, t_config_fields, t_control_divmod, t_window_of_alloc, t_else_then_more, t_dependent_alloc, t_rmw_prefix, t_triangular_alloc, t_reduce_beyond, t_config_chain, t_maybe_zero_bound, t_masked_callee, t_config_scalar, t_same_name_inline, t_externs]
+def t_nested_window_point(k):
+    """window of a window: the outer one starts at a non-zero row, the inner one fixes that
+    dimension with a point; consumed directly and through a callee (resize/fold/reuse candidates)"""
+    lo = [4, 2, 3][k % 3]
+    pt = [2, 1, 0][(k // 3) % 3]
+    rd = {
+        "name": "rowsum",
+        "args": [_arg("dst", "window", dims=["1"], written=True), _arg("src", "window", dims=["8"], written=False)],
+        "preds": [],
+        "body": [["for", "i", "0", "8", [["reduce", "dst", ["0"], "src[i]"]], "seq"]],
+    }
+    body = [
+        ["alloc", "buf", "f32", ["8", "8"], "DRAM"],
+        ["for", "i", str(lo), str(lo + 4), [["for", "j", "0", "8", [["assign", "buf", ["i", "j"], "x[j] + y[i - " + str(lo) + "]"]], "seq"]], "seq"],
+        ["window", "w", "buf", [["iv", str(lo), str(lo + 4)], ["iv", "0", "8"]]],
+        ["window", "r", "w", [["pt", str(pt)], ["iv", "0", "8"]]],
+        ["for", "j", "0", "8", [["reduce", "y", ["0"], "r[j]"]], "seq"],
+        ["call", "rowsum", ["y[1:2]", f"w[{pt + 1}, 0:8]"]],
+    ]
+    main = {"name": "foo", "args": [_arg("x", "tensor", dims=["8"]), _arg("y", "tensor", dims=["4"])], "preds": [], "body": body}
+    return {"prec": "f32", "cfg": False, "callees": [rd], "main": main}
+
+
+def t_alloc_before_if_else(k):
+    """allocation used in one branch of an if/else (sink_alloc / lift candidates), two adjacent
+    if/else statements with the same condition (fuse), statements after them"""
+    cond = ["n > 2", "m > 1"][k % 2]
+    body = [
+        ["alloc", "a", "f32", ["4"], "DRAM"],
+        ["if", cond, [["assign", "a", ["0"], "x[0]"], ["assign", "y", ["0"], "a[0] + 1.0"]], [["assign", "y", ["1"], "1.0"], ["assign", "y", ["2"], "2.0"], ["assign", "y", ["3"], "x[1]"]]],
+        ["if", cond, [["assign", "x", ["2"], "y[0]"]], [["assign", "x", ["3"], "y[1]"], ["reduce", "x", ["1"], "y[2]"]]],
+        ["for", "i", "0", "n", [["if", cond, [["reduce", "y", ["0"], "x[i % 4]"]], [["reduce", "y", ["1"], "2.0"], ["reduce", "y", ["2"], "3.0"]]]], "seq"],
+        ["assign", "y", ["3"], "y[3] + y[0]"],
+    ]
+    main = {"name": "foo", "args": [_arg("n", "size"), _arg("m", "size"), _arg("x", "tensor", dims=["4"]), _arg("y", "tensor", dims=["4"])], "preds": [], "body": body}
+    return {"prec": "f32", "cfg": False, "callees": [], "main": main}
+
+
+def t_window_var_to_callee(k):
+    """an argument that the caller never writes directly: a window statement on it, and a callee
+    that WRITES through a window expression over that window variable (const-qualification of the
+    argument / window struct); first- and second-level windows"""
+    second = k % 2 == 1
+    wr = {
+        "name": "fill2",
+        "args": [_arg("dst", "window", dims=["2"], written=True), _arg("src", "window", dims=["2"], written=False)],
+        "preds": [],
+        "body": [["for", "i", "0", "2", [["assign", "dst", ["i"], "src[i] + 1.0"]], "seq"]],
+    }
+    body = [["window", "w", "x", [["iv", "2", "6"]]]]
+    if second:
+        body += [["window", "r", "w", [["iv", "1", "4"]]], ["call", "fill2", ["r[0:2]", "y[0:2]"]]]
+    else:
+        body += [["call", "fill2", ["w[1:3]", "y[0:2]"]]]
+    body += [["for", "i", "0", "4", [["reduce", "y", ["i"], "w[i]"]], "seq"]]
+    main = {"name": "foo", "args": [_arg("x", "tensor", dims=["8"]), _arg("y", "tensor", dims=["4"])], "preds": [], "body": body}
+    return {"prec": "f32", "cfg": False, "callees": [wr], "main": main}
+
+
+TEMPLATES = [t_window_on_alloc, t_config_fields, t_control_divmod, t_window_of_alloc, t_else_then_more, t_dependent_alloc, t_rmw_prefix, t_triangular_alloc, t_reduce_beyond, t_config_chain, t_maybe_zero_bound, t_masked_callee, t_config_scalar, t_same_name_inline, t_externs, t_nested_window_point, t_alloc_before_if_else, t_window_var_to_callee]
 
 
 def templates():
